@@ -23,6 +23,9 @@ use crate::rng::Rng;
 use crate::Ctx;
 
 pub fn gen_case(rng: &mut Rng, idx: usize, thorough: bool) -> Value {
+    if idx % 8 == 6 {
+        return gen_fuel_case(rng, thorough);
+    }
     if idx % 2 == 1 {
         // grammars in which different histories reach the same lexer state and row index with a
         // different parser context; clones diverge first and query back to back afterwards
@@ -34,9 +37,24 @@ pub fn gen_case(rng: &mut Rng, idx: usize, thorough: bool) -> Value {
                "mode": 4, "n_clones": 2 + rng.below(4), "ops": 2 + rng.below(3)});
     }
     let (g, texts) = eng::gen_grammar(rng, idx);
-    json!({"grammar": g.to_json(), "texts": texts.iter().map(|t| crate::vocab::hex(t)).collect::<Vec<_>>(),
+    return json!({"grammar": g.to_json(), "texts": texts.iter().map(|t| crate::vocab::hex(t)).collect::<Vec<_>>(),
            "vocab_kind": 1 + idx % 2, "canonical": false, "seed": rng.next() % 1_000_000_000,
-           "mode": (idx / 2) % 4, "n_clones": 2 + rng.below(if thorough { 15 } else { 7 }), "ops": if thorough { 60 } else { 30 }})
+           "mode": (idx / 2) % 4, "n_clones": 2 + rng.below(if thorough { 15 } else { 7 }), "ops": if thorough { 60 } else { 30 }});
+}
+
+fn gen_fuel_case(rng: &mut Rng, thorough: bool) -> Value {
+    {
+        // the per-call lexer budget: clones that share a lexer explore different branches of large counting lexemes
+        // with a small `step_lexer_fuel`; no clone may run out where a private engine with the same history does not
+        let n = 4 + rng.below(3);
+        let mut g = String::from("start: ");
+        g.push_str(&(0..n).map(|i| format!("T{i}")).collect::<Vec<_>>().join(" | "));
+        g.push('\n');
+        for i in 0..n { g.push_str(&format!("T{i}: /{}[0-9]{{1,{}}}{}/\n", (b'a' + i as u8) as char, 300 + 100 * rng.below(8), (b'A' + i as u8) as char)); }
+        let fuel = [3000u64, 8000, 20000][rng.below(3)];
+        return json!({"grammar": {"lark": g}, "texts": [crate::vocab::hex(b"a123A"), crate::vocab::hex(b"b45B")], "vocab_kind": 0, "canonical": false,
+               "seed": rng.next() % 1_000_000_000, "mode": 5, "n_clones": n, "ops": if thorough { 40 } else { 14 }, "fuel": fuel});
+    }
 }
 
 fn hash_content(c: &[u32]) -> u64 {
@@ -74,9 +92,47 @@ fn step_clone(w: &World, g: &Gram, c: &mut Clone_, pick: u64, rep: &mut Report, 
 pub fn run_case(_ctx: &Ctx, case: &Value, tag: usize, rep: &mut Report, mb: &mut ModelBatch) {
     let mut rng = Rng::new(case["seed"].as_u64().unwrap());
     let Some((g, w)) = world_of(case, &mut rng) else { rep.skip("world"); return; };
+    let mode = case["mode"].as_u64().unwrap();
+    if mode == 5 {
+        let Ok(mut fac) = crate::engine::factory(&w.env, None, false) else { rep.skip("factory"); return; };
+        fac.limits_mut().step_lexer_fuel = case["fuel"].as_u64().unwrap_or(3000);
+        let mk = |fac: &llguidance::ParserFactory| llguidance::Matcher::new(fac.create_parser(g.top()));
+        let base = mk(&fac);
+        if base.is_error() { rep.skip("grammar-rejected"); return; }
+        let n = case["n_clones"].as_u64().unwrap() as usize;
+        let mut clones: Vec<Clone_> = (0..n).map(|_| Clone_ { m: base.clone(), toks: vec![] }).collect();
+        rep.evaluations += 1;
+        for round in 0..case["ops"].as_u64().unwrap() as usize {
+            for i in 0..n {
+                if clones[i].m.is_stopped() || clones[i].m.is_error() { continue; }
+                let mask = eng::mask_of(&mut clones[i].m);
+                let mut private = mk(&fac);
+                let replay_ok = private.consume_tokens(&clones[i].toks).is_ok();
+                let pmask = if replay_ok { eng::mask_of(&mut private) } else { Err("replay failed".into()) };
+                match (&mask, &pmask) {
+                    (Ok(a), Ok(b)) if a == b => {}
+                    (Ok(_), Err(_)) => { rep.count("fuel.private-ran-out-first"); }   // the clone profits from states its siblings built: a resource-limit difference in the harmless direction
+                    (Err(_), Err(_)) => {}
+                    _ => {
+                        rep.fail("oracle", "c14:fuel-mask-vs-private", format!("round {round}, clone {i} with history {:?}: {} while a private engine with the same history and limits gives {}", clones[i].toks,
+                            match &mask { Ok(m) => format!("a mask of {} tokens", m.len()), Err(e) => format!("error `{e}`") }, match &pmask { Ok(m) => format!("a mask of {} tokens", m.len()), Err(e) => format!("error `{e}`") }), json!({"case": case}));
+                        return;
+                    }
+                }
+                let Ok(mask) = mask else { continue };
+                // clone i follows branch i: its letter first, digits afterwards
+                let want = if round == 0 { b'a' + i as u8 } else { b'0' + ((round * 7 + i) % 10) as u8 } as u32;
+                let t = if mask.contains(&want) { want } else if let Some(t) = mask.first() { *t } else { continue };
+                if clones[i].m.consume_token(t).is_ok() { clones[i].toks.push(t); }
+            }
+        }
+        rep.count("fuel.cases");
+        rep.nontrivial(format!("fuel|{}", case["grammar"]));
+        rep.sample(json!({"grammar": case["grammar"], "mode": mode, "clones": n}));
+        return;
+    }
     let base = w.matcher(&g);
     if base.is_error() { rep.skip("grammar-rejected"); return; }
-    let mode = case["mode"].as_u64().unwrap();
     let n = case["n_clones"].as_u64().unwrap() as usize;
     let n_ops = case["ops"].as_u64().unwrap() as usize;
     let repro = json!({"case": case});
